@@ -236,7 +236,7 @@ def check_case(case):
             return dict(verdict="inconclusive", reason="constexpr-timeout-under-load", counters=cnt, violations=[], features=feats)
         if oka != okb:
             cnt["asymmetric"] = 1
-            vio.append(dict(signature=dict(monitor="compact-differential", event="only-one-mode-compiles"), triggers=triggers_of(src), detail=dict(verbose=str(a)[:300], compact=str(b)[:300], options=opts_key(o))))
+            vio.append(dict(signature=dict(monitor="compact-differential", event="only-one-mode-compiles"), triggers=sorted(set(triggers_of(src)) | set(_str_triggers(src))), detail=dict(verbose=str(a)[:300], compact=str(b)[:300], options=opts_key(o))))
         return dict(verdict="violated" if vio else "skip", counters=cnt, violations=vio, features=feats)
     cnt["successes"] = 1
     pa, pb = ic10_isa.Program(a["code"]), ic10_isa.Program(b["code"])
@@ -302,6 +302,8 @@ def _str_triggers(src):
                     t.append("string_with_line_separator")
                 if '"' in n.value:
                     t.append("string_with_double_quote")
+                if n.value.startswith('"') and n.value.endswith('"'):
+                    t.append("string_begins_and_ends_with_double_quote")
     except Exception:
         pass
     return sorted(set(t))
